@@ -27,6 +27,11 @@ let () =
   register "node_tokens" (function [t; prods] -> show_tokens (node_sig_tokens { n_type = n_of_dec t; n_producers = list_of_field prods }) | _ -> "ERR args");
   register "node_tokens_v0" (function [t; prods] -> show_tokens (node_sig_tokens_v0 { n_type = n_of_dec t; n_producers = list_of_field prods }) | _ -> "ERR args");
   register "symlink_tokens" (function [o; c; ins] -> show_named (symlink_sig_tokens (bytes_of_hex o) (bytes_of_hex c) (list_of_field ins)) | _ -> "ERR args");
+  (* sdef_tokens name inputs outputs contents link-output-path repair(0/1) *)
+  register "sdef_tokens" (function [n; ins; outs; c; l; r] ->
+      (match sdef_sig_tokens { s_name = bytes_of_hex n; s_inputs = list_of_field ins; s_outputs = list_of_field outs; s_contents = bytes_of_hex c;
+                               s_link_output_path = bytes_of_hex l; s_repair_via_ownership = (r = "1") } with
+       | Some p -> show_named p | None -> "OVERREAD") | _ -> "ERR args");
   register "plain_tokens" (function [n] -> show_tokens (plain_sig_tokens (bytes_of_hex n)) | _ -> "ERR args");
   (* rel_eq <11 fields> <11 fields>: do the two definitions have the same signature-relevant part? *)
   register "rel_eq" (fun a -> let (x, y) = split_at 11 a in b2s (relevant (def_of x) = relevant (def_of y)))
